@@ -323,4 +323,77 @@ def serveV (v : Variant) (e : Env) (r : Req) : Resp :=
 
 def serve : Env → Req → Resp := serveV .fixed
 
+/-! ### requests in flight together
+
+Between `Rewrite` and the moment the transport writes the request to the backend connection (it has
+to get or dial a connection first) other requests run through the same handler, and through the
+handlers of the other bind addresses, which `websvc.New` builds from the same `TargetURL` value.
+The model makes the two phases separate events of a schedule. -/
+
+/-- What the transport sends to the backend for one proxied request. -/
+structure Out where
+  method : Str
+  path : Str
+  hdrs : Hdrs
+  deriving DecidableEq
+
+/-- Which parts of the outgoing request live in an object shared by all requests instead of the
+per-request clone that `ReverseProxy.ServeHTTP` hands to `Rewrite`.  The code as it is shares
+nothing: `SetURL(apiURL)` copies scheme, host and the joined path into the clone's own URL, and the
+closure sets headers in the clone's own map. -/
+structure Sharing where
+  /-- `Rewrite` writes the path into one URL object and points every outgoing request at it. -/
+  url : Bool
+  /-- `Rewrite` fills one header map and hands it to every outgoing request. -/
+  hdr : Bool
+
+def Sharing.none : Sharing := { url := false, hdr := false }
+
+/-- Events of a schedule; `i` indexes the list of requests. -/
+inductive Ev
+  /-- request `i` runs `ServeHTTP` up to and including `Rewrite`; a request that is not forwarded is
+  answered locally here. -/
+  | rewrite (i : Nat)
+  /-- the transport writes request `i` (request line and headers) to a backend connection. -/
+  | send (i : Nat)
+  deriving DecidableEq
+
+structure Flight where
+  /-- the shared objects as last written (only read when `Sharing` says so) -/
+  url : Str
+  hdr : Hdrs
+  /-- requests after `Rewrite` that are not written yet -/
+  waiting : List (Nat × Out)
+  /-- what the backend received, in order, with the request that caused it -/
+  log : List (Nat × Out)
+
+def Flight.init : Flight := { url := [], hdr := [], waiting := [], log := [] }
+
+/-- the outgoing request `Rewrite` leaves behind, `none` when the request is answered locally. -/
+def outOf (e : Env) (r : Req) : Option Out :=
+  match serve e r with
+  | .proxied p h => some { method := r.method, path := p, hdrs := h }
+  | _ => none
+
+def stepFlight (sh : Sharing) (e : Env) (reqs : List Req) (s : Flight) : Ev → Flight
+  | .rewrite i =>
+    match reqs[i]? with
+    | none => s
+    | some r =>
+      match outOf e r with
+      | none => s
+      | some o => { s with url := o.path, hdr := o.hdrs, waiting := s.waiting ++ [(i, o)] }
+  | .send i =>
+    match s.waiting.find? (fun io => io.1 == i) with
+    | none => s
+    | some io =>
+      { s with
+        waiting := s.waiting.eraseP (fun io => io.1 == i)
+        log := s.log ++ [(i, { method := io.2.method,
+                               path := if sh.url then s.url else io.2.path,
+                               hdrs := if sh.hdr then s.hdr else io.2.hdrs })] }
+
+def runFlight (sh : Sharing) (e : Env) (reqs : List Req) (evs : List Ev) : Flight :=
+  evs.foldl (stepFlight sh e reqs) Flight.init
+
 end Agd.LinkIP
